@@ -20,8 +20,8 @@ func init() {
 		NonTrivial: func(o *Outcome) bool {
 			return o.Hist.Probes["evictions"] > 0
 		},
-		Rule:         "every run uses one cache size S from [1..40, 63,64,65,127,128,1000,1023,1024,1025,4096] (S is drawn from that list by the run seed; quick tier mostly replaces the large sizes by small ones), key population > S (2S..10S for small S), access sequences several times S, sequential (exact LRU-order model per shard) or from concurrent clients (bound only), store on/off. Online invariant after every step: resident entries <= S; on every eviction in sequential runs the dropped key is the least recently used of its shard in the reference recency list. non-trivial = at least one eviction occurred; distinct = distinct history hash",
-		ExpectProbes: []string{"evictions", "lru-order-checked", "size<8", "size>=1024", "resident==size"},
+		Rule:         "every run uses one cache size S from [1..40, 63,64,65,127,128,1000,1023,1024,1025,4096] (S is drawn from that list by the run seed; quick tier mostly replaces the large sizes by small ones), key population > S (2S..10S for small S), access sequences several times S, sequential (exact LRU-order model per shard) or from concurrent clients (bound only), store on/off; 30% of the runs mix in administrative purges of probably-resident keys, 20% re-apply the configuration with other sizes, 20% run two caches behind two servers, drop both in one reconfiguration and configure both names anew with smaller sizes. Online invariant after every step, for every configured cache: resident entries <= the size in force (a cache that stays configured keeps the largest size configured so far, a cache configured anew has its new size); on every eviction in sequential runs the dropped key is the least recently used of its shard in the reference recency list. non-trivial = at least one eviction occurred; distinct = distinct history hash",
+		ExpectProbes: []string{"evictions", "lru-order-checked", "size<8", "size>=1024", "resident==size", "purged-resident-key", "cache-configured-anew"},
 	})
 }
 
@@ -64,12 +64,30 @@ func genC11(g *Gen) *Plan {
 	// a fifth of the runs re-apply the configuration with other sizes for the same cache while
 	// traffic continues (cache size is documented as restart-only: whichever size is in force,
 	// residency must stay within the largest size ever configured)
-	if g.p(0.2) && S <= 128 {
+	multi := false
+	switch x := g.n(0, 9); {
+	case x < 2 && S <= 128:
 		for i := 0; i < g.n(1, 3); i++ {
 			c := baseConfig(pick(g, 1, 3, 5, 7, 8, 20, 100, 127, 2000), "1s", store)
 			p.Configs = append(p.Configs, c)
 		}
+	case x < 4 && S <= 128 && store == "":
+		// two caches behind two servers; a reconfiguration drops both at once (the servers move
+		// to a third cache), a later one configures the two names again with smaller sizes:
+		// a cache that was removed and configured anew is a new cache, bounded by its new size
+		multi = true
+		c0 := &p.Configs[0]
+		c0.Caches = append(c0.Caches, CacheCfg{Name: "c2", Size: pick(g, S, S+3, max(1, S/2)), HitForPass: "1s"})
+		c0.Servers = append(c0.Servers, ServerCfg{Addr: srvAddr2, Locations: []string{"l1"}, Cache: "c2"})
+		c1 := baseConfig(1, "1s", "")
+		c1.Caches = []CacheCfg{{Name: "cx", Size: pick(g, 1, 9, 30), HitForPass: "1s"}}
+		c1.Servers = []ServerCfg{{Addr: srvAddr, Locations: []string{"l1"}, Cache: "cx"}, {Addr: srvAddr2, Locations: []string{"l1"}, Cache: "cx"}}
+		c2 := baseConfig(1, "1s", "")
+		c2.Caches = []CacheCfg{{Name: "c1", Size: max(1, S/pick(g, 2, 3, 8)), HitForPass: "1s"}, {Name: "c2", Size: pick(g, 1, 2, max(1, S/4)), HitForPass: "1s"}}
+		c2.Servers = c0.Servers
+		p.Configs = append(p.Configs, c1, c2)
 	}
+	purges := g.p(0.3)
 	p.Default = cacheable(3600, 12)
 	p.Notes = fmt.Sprintf("size=%d population=%d requests=%d", S, pop, nreq)
 	// access pattern: mixture of a sweep, a hot set and uniform picks
@@ -87,11 +105,30 @@ func genC11(g *Gen) *Plan {
 			k = i % pop
 		}
 		op := reqOp("GET", hostA, fmt.Sprintf("/n%d", k))
+		if multi && g.p(0.45) {
+			op = reqOp("GET", hostA, fmt.Sprintf("/q%d", k))
+			op.Addr = srvAddr2
+		}
 		if !p.Sequential && g.p(0.25) {
 			op.Barrier = true
 		}
 		p.Ops = append(p.Ops, op)
-		if len(p.Configs) > 1 && g.p(3.0/float64(nreq)) {
+		if purges && g.p(0.06) {
+			// an administrator purges a key that is probably resident
+			prev := p.Ops[max(0, len(p.Ops)-1-g.n(0, 3))]
+			if prev.Kind == OpReq {
+				p.Ops = append(p.Ops, Op{Kind: OpPurge, Cache: pick(g, "c1", "c1", "c2"), Key: "GET " + hostA + " " + prev.URI, Barrier: g.p(0.5)})
+			}
+		}
+		switch {
+		case multi:
+			if i == nreq/2 || i == nreq*3/4 {
+				p.Ops = append(p.Ops, Op{Kind: OpReload, Config: 1, Barrier: true})
+			}
+			if i == nreq/2+max(2, nreq/12) || i == nreq*3/4+max(2, nreq/12) {
+				p.Ops = append(p.Ops, Op{Kind: OpReload, Config: 2, Barrier: true})
+			}
+		case len(p.Configs) > 1 && g.p(3.0/float64(nreq)):
 			p.Ops = append(p.Ops, Op{Kind: OpReload, Config: g.n(1, len(p.Configs)-1), Barrier: true})
 		}
 	}
@@ -99,16 +136,23 @@ func genC11(g *Gen) *Plan {
 }
 
 type c11State struct {
-	size     int
-	recency  map[int][]string // shard -> keys, least recent first
-	nextReq  int
-	reloaded bool
-	evPos    int
+	size      int
+	bound     map[string]int   // cache name -> bound in force
+	recency   map[int][]string // shard -> keys, least recent first
+	nextReq   int
+	nextMisc  int
+	nextPurge int
+	reloaded  bool
+	reloading *MiscRec
+	evPos     int
 }
 
 func armC11(e *Engine) {
-	st := &c11State{recency: map[int][]string{}}
+	st := &c11State{recency: map[int][]string{}, bound: map[string]int{}}
 	st.size = e.plan.Configs[0].Caches[0].Size
+	for _, c := range e.plan.Configs[0].Caches {
+		st.bound[c.Name] = c.Size
+	}
 	if st.size < 8 {
 		e.hist.Probes["size<8"]++
 	}
@@ -116,30 +160,60 @@ func armC11(e *Engine) {
 		e.hist.Probes["size>=1024"]++
 	}
 	e.onStep = func(e *Engine) {
+		// the bounds in force: a cache that stays configured keeps its dispatcher (its size is
+		// documented as restart-only: the largest size configured so far is the bound asserted),
+		// a cache that was dropped and is configured anew is a new cache with its new size
+		for st.nextMisc < len(e.hist.Misc) {
+			m := e.hist.Misc[st.nextMisc]
+			if m.Kind != "reload" {
+				st.nextMisc++
+				continue
+			}
+			st.reloaded = true
+			if m.ReturnSeq < 0 {
+				st.reloading = m
+				break
+			}
+			st.reloading = nil
+			st.nextMisc++
+			var ci int
+			fmt.Sscanf(m.Text, "%d", &ci)
+			if ci >= len(e.plan.Configs) {
+				continue
+			}
+			nb := map[string]int{}
+			for _, c := range e.plan.Configs[ci].Caches {
+				if old, ok := st.bound[c.Name]; ok && old > c.Size {
+					nb[c.Name] = old
+				} else {
+					nb[c.Name] = c.Size
+					if !ok {
+						e.hist.Probes["cache-configured-anew"]++
+					}
+				}
+			}
+			st.bound = nb
+		}
+		if st.reloading != nil {
+			return
+		}
+		for _, name := range sortedKeys(st.bound) {
+			d := pikecache.GetDispatcher(name)
+			if d == nil {
+				continue
+			}
+			n, bound := d.VerifLen(), st.bound[name]
+			if n == bound {
+				e.hist.Probes["resident==size"]++
+			}
+			if n > bound {
+				e.violate("C11", "residency-exceeds-size", "more keys resident than the configured size",
+					fmt.Sprintf("cache %s size %d but %d keys are resident after step %d (shard lengths %v)", name, bound, n, e.step, d.VerifShardLens()))
+			}
+		}
 		d := pikecache.GetDispatcher("c1")
 		if d == nil {
 			return
-		}
-		// the bound in force: the largest size configured so far for this cache
-		for _, m := range e.hist.Misc {
-			if m.Kind == "reload" {
-				var ci int
-				fmt.Sscanf(m.Text, "%d", &ci)
-				if ci < len(e.plan.Configs) {
-					if sz := e.plan.Configs[ci].Caches[0].Size; sz > st.size {
-						st.size = sz
-					}
-					st.reloaded = true
-				}
-			}
-		}
-		n := d.VerifLen()
-		if n == st.size {
-			e.hist.Probes["resident==size"]++
-		}
-		if n > st.size {
-			e.violate("C11", "residency-exceeds-size", "more keys resident than the configured size",
-				fmt.Sprintf("cache size %d but %d keys are resident after step %d (shard lengths %v)", st.size, n, e.step, d.VerifShardLens()))
 		}
 		if !e.plan.Sequential || st.reloaded {
 			return
@@ -151,6 +225,38 @@ func armC11(e *Engine) {
 				break
 			}
 			st.nextReq++
+			// purges completed before this request was issued: the key leaves its shard's list
+			// (its departure is reported like an eviction)
+			for st.nextPurge < len(e.hist.Misc) {
+				m := e.hist.Misc[st.nextPurge]
+				if m.Kind == "purge" && (m.ReturnSeq < 0 || m.ReturnSeq > r.InvokeSeq) {
+					break
+				}
+				st.nextPurge++
+				if m.Kind != "purge" || m.Cache != "c1" {
+					continue
+				}
+				ps := d.VerifShardOf([]byte(m.Key))
+				pl := st.recency[ps]
+				for i, k := range pl {
+					if k == m.Key {
+						st.recency[ps] = append(pl[:i:i], pl[i+1:]...)
+						e.hist.Probes["purged-resident-key"]++
+						for j := st.evPos; j < len(e.evLog); j++ {
+							if strings.HasPrefix(e.evLog[j], "c1|") {
+								if e.evLog[j] == fmt.Sprintf("c1|%d|%s", ps, m.Key) {
+									e.evLog = append(e.evLog[:j:j], e.evLog[j+1:]...)
+								}
+								break
+							}
+						}
+						break
+					}
+				}
+			}
+			if r.Addr != srvAddr {
+				continue
+			}
 			shard := d.VerifShardOf([]byte(r.Key))
 			lst := st.recency[shard]
 			for i, k := range lst {
